@@ -1,4 +1,285 @@
-import ZCV.Model.TreeLoad
+import ZCV.Lemmas.ElabRulesComps
+/-!
+# C11 — schema composition features mean the same as their written-out expansion
+
+Theorems about the composition steps of the schema-loader model (`ZCV/Model/Elab.lean`): what a derived section type
+gets from its base (`deriveSectionType`), how relative names are resolved against the prefix stack, and that a
+component is merged into a schema once.
+
+Notation (from `ZCV/Lemmas/ElabRules.lean`): `Pointwise R l l'` — the lists have the same length and `R l[i] l'[i]`
+for every position; `DerivedChild env kt c c'` — `c'` is what the child `c` of the base becomes in a type derived under
+key type `kt`; `addSubtype es an n` — `AbstractType.addsubtype`: the abstract type `an` gains the subtype name `n`
+(once); `importSource pkg file` — the string `package:<pkg>:<file>` under which a merged component is remembered.
+-/
 namespace ZCV.Props.C11
-open ZCV
+open ZCV ZCV.Elab
+open ZCV.Cfg (VI SectInfo Default)
+
+/-! ## a. the children of a derived type -/
+
+/-- what `DerivedChild` says, case by case: sections and fixed keys are copied unchanged; a wildcard (`+`) key keeps its
+container key and becomes `computedefault(kt)` of the base's key object -/
+theorem C11_derived_child_cases (env : Env) (kt : Str) (key : Option Str) (c' : Option Str × EInfo) :
+    (∀ s, DerivedChild env kt (key, .sect s) c' ↔ c' = (key, .sect s)) ∧
+    (∀ k, k.name ≠ ['+'] → (DerivedChild env kt (key, .key k) c' ↔ c' = (key, .key k))) ∧
+    (∀ k, k.name = ['+'] →
+        (DerivedChild env kt (key, .key k) c' ↔ ∃ k', computeDefault env kt k = .ok k' ∧ c' = (key, .key k'))) := by
+  refine ⟨fun s => Iff.rfl, fun k hn => ?_, fun k hn => ?_⟩
+  · simp only [DerivedChild, hn, ↓reduceIte]
+  · simp only [DerivedChild, hn, ↓reduceIte]
+
+/-- `deriveSectionType`'s copy of the base's children under the new key type `kt` succeeds with `ch'` exactly when
+`ch'` is, position by position, the derived form of `ch`.  In particular: same length, same keys, same attribute
+names, every child that is not a wildcard key unchanged, every wildcard key recomputed by `computedefault(kt)`. -/
+theorem C11_derive_children (env : Env) (kt : Str) (ch ch' : List (Option Str × EInfo)) :
+    (deriveChildren env kt ch = .ok ch' ↔ Pointwise (DerivedChild env kt) ch ch') ∧
+    (deriveChildren env kt ch = .ok ch' →
+      ch'.length = ch.length ∧ ch'.map (·.1) = ch.map (·.1) ∧ ch'.map (·.2.attr) = ch.map (·.2.attr) ∧
+      ∀ (i : Nat) (h1 : i < ch.length) (h2 : i < ch'.length), DerivedChild env kt ch[i] ch'[i]) := by
+  refine ⟨deriveChildren_ok_iff env kt ch ch', fun h => ⟨deriveChildren_length h, deriveChildren_keys h,
+    deriveChildren_attrs h, ?_⟩⟩
+  exact ((deriveChildren_ok_iff env kt ch ch').1 h).get
+
+private def exKey : EKey :=
+  { name := "k".toList, attr := "k".toList, multi := false, minOccurs := 0, dt := "string".toList, handler := none,
+    dflt := .none }
+example (env : Env) (kt : Str) : deriveChildren env kt [(some "k".toList, .key exKey)] = .ok [(some "k".toList, .key exKey)] :=
+  (deriveChildren_ok_iff _ _ _ _).2 (.cons rfl .nil)
+
+/-- `computedefault` changes nothing in the key object but the defaults, and remembers the defaults *as written*
+(`_rawdefaults`): the first time they are the current defaults, later they are the remembered ones -/
+theorem C11_raw_defaults_preserved (env : Env) (kt : Str) (k k' : EKey) (h : computeDefault env kt k = .ok k') :
+    k.name = ['+'] ∧ ∃ d, k' = { k with raw := some (k.raw.getD k.dflt), dflt := d } :=
+  computeDefault_ok h
+
+/-- hence a key that went through `computedefault` once (under any key type) is recomputed, under a new key type
+`kt2`, exactly as the original would be: from the keys as written, not from the already normalised ones -/
+theorem C11_recompute_from_raw (env : Env) (kt kt2 : Str) (k k' : EKey) (h : computeDefault env kt k = .ok k') :
+    computeDefault env kt2 k' = computeDefault env kt2 k ∧ k'.raw.getD k'.dflt = k.raw.getD k.dflt := by
+  refine ⟨computeDefault_again h, ?_⟩
+  obtain ⟨_, d, rfl⟩ := computeDefault_ok h
+  rfl
+
+/-- deriving from a derived type (`t2 extends t1 extends t0`) gives the children that deriving directly from the first
+base's children under the last key type gives -/
+theorem C11_derive_twice (env : Env) (kt kt2 : Str) (ch ch' : List (Option Str × EInfo))
+    (h : deriveChildren env kt ch = .ok ch') : deriveChildren env kt2 ch' = deriveChildren env kt2 ch :=
+  deriveChildren_again h
+
+/-! ## b. what `extends` inherits -/
+
+/-- after an accepted `<sectiontype name=… extends=b>`: the base `b` is a concrete type defined earlier; the new type
+`t` is in the table and on top of the stack; its key type (datatype) is the base's when the element has no `keytype`
+(`datatype`) attribute, and otherwise what the attribute alone gives — the same as for a type without base; and its
+children are the base's children derived under the new key type. -/
+theorem C11_extends_inherits (env : Env) (st st' : PSt) (attrs : Attrs) (b : Str)
+    (hx : attr attrs "extends" = some b) (h : startSectiontype env st attrs = .ok st') :
+    ∃ name st1 bn key base t,
+      pushPrefix st attrs = .ok st1 ∧ basicKeyE b = .ok bn ∧ st.es.gettype bn = some (key, .concrete base) ∧
+      st'.es.types.find? (·.1 == name) = some (name, .concrete t) ∧ st'.stack = .stype name :: st.stack ∧
+      (attr attrs "keytype" = none → t.keytype = base.keytype) ∧
+      (attr attrs "datatype" = none → t.datatype = base.datatype) ∧
+      ((attr attrs "keytype").isSome = true →
+          getDatatype env st1 attrs "keytype" "basic-key" none = .ok t.keytype) ∧
+      ((attr attrs "datatype").isSome = true →
+          getDatatype env st1 attrs "datatype" "null" none = .ok t.datatype) ∧
+      deriveChildren env t.keytype base.children = .ok t.children := by
+  obtain ⟨name, st1, bn, key, base, t, h1, h2, h3, h4, h5, _, h7, h8⟩ := startSectiontype_extends_result hx h
+  obtain ⟨g1, _, g3⟩ := getSectTypeinfo_ok h7
+  simp only [Option.map_some] at g1 g3
+  refine ⟨name, st1, bn, key, base, t, h1, h2, h3, h4, h5, ?_, ?_, ?_, ?_, h8⟩
+  · intro hk
+    rw [getDatatype_base env st1 attrs _ _ _ hk] at g1
+    injection g1 with g1; exact g1.symm
+  · intro hd
+    rw [getDatatype_base env st1 attrs _ _ _ hd] at g3
+    injection g3 with g3; exact g3.symm
+  · intro hk
+    rw [getDatatype_attr_base_irrelevant env st1 attrs _ _ none (some base.keytype) hk]; exact g1
+  · intro hd
+    rw [getDatatype_attr_base_irrelevant env st1 attrs _ _ none (some base.datatype) hd]; exact g3
+
+/-- for comparison, a type without `extends`: no children, key type and datatype from its own attributes (defaults
+`basic-key` / `null`) -/
+theorem C11_plain_sectiontype (env : Env) (st st' : PSt) (attrs : Attrs)
+    (hx : attr attrs "extends" = none) (h : startSectiontype env st attrs = .ok st') :
+    ∃ name st1 t, pushPrefix st attrs = .ok st1 ∧
+      st'.es.types.find? (·.1 == name) = some (name, .concrete t) ∧ st'.stack = .stype name :: st.stack ∧
+      t.children = [] ∧
+      getDatatype env st1 attrs "keytype" "basic-key" none = .ok t.keytype ∧
+      getDatatype env st1 attrs "datatype" "null" none = .ok t.datatype := by
+  obtain ⟨name, st1, t, h1, h2, h3, h4, h5⟩ := startSectiontype_plain_result hx h
+  obtain ⟨g1, _, g3⟩ := getSectTypeinfo_ok h5
+  exact ⟨name, st1, t, h1, h2, h3, h4, g1, g3⟩
+
+/-- `implements` is not inherited: without an `implements` attribute the only change to the type table is the new
+entry — no abstract type gains the new name, whatever the base implements -/
+theorem C11_implements_not_inherited (env : Env) (st st' : PSt) (attrs : Attrs)
+    (hi : attr attrs "implements" = none) (h : startSectiontype env st attrs = .ok st') :
+    ∃ name t, st'.es = { st.es with types := st.es.types ++ [(name, .concrete t)] } :=
+  startSectiontype_noimplements hi h
+
+/-- with `implements=i`: `i` is an abstract type `an` defined earlier, and the table is the old one plus the new
+entry, with `an` — and only `an` — gaining the new name (once) -/
+theorem C11_implements_given (env : Env) (st st' : PSt) (attrs : Attrs) (i : Str)
+    (hi : attr attrs "implements" = some i) (h : startSectiontype env st attrs = .ok st') :
+    ∃ name t ifn an nm subs d, basicKeyE i = .ok ifn ∧ st.es.gettype ifn = some (an, .abstract_ nm subs d) ∧
+      st'.es = addSubtype { st.es with types := st.es.types ++ [(name, .concrete t)] } an name ∧
+      (∀ m, m ≠ an → st'.es.types.find? (·.1 == m) =
+          (st.es.types ++ [(name, EEntry.concrete t)]).find? (·.1 == m)) ∧
+      (∀ m k t', (st.es.types ++ [(name, EEntry.concrete t)]).find? (·.1 == m) = some (k, .concrete t') →
+          st'.es.types.find? (·.1 == m) = some (k, .concrete t')) := by
+  obtain ⟨name, t, ifn, an, nm, subs, d, h1, h2, h3⟩ := startSectiontype_implements hi h
+  refine ⟨name, t, ifn, an, nm, subs, d, h1, h2, h3, ?_, ?_⟩
+  · intro m hm; rw [h3]; exact addSubtype_find_other _ an name m hm
+  · intro m k t' hf; rw [h3]; exact addSubtype_find_concrete _ an name m k t' hf
+
+/-- `addsubtype`: the abstract type named gains the subtype name unless it already has it -/
+theorem C11_addsubtype (es : ES) (an name k nm : Str) (subs : List Str) (d : Bool)
+    (h : es.types.find? (·.1 == an) = some (k, .abstract_ nm subs d)) :
+    (addSubtype es an name).types.find? (·.1 == an) =
+      some (k, .abstract_ nm (if subs.contains name then subs else subs ++ [name]) d) :=
+  addSubtype_find_self es an name k nm subs d h
+
+/-! ## c. prefixes -/
+
+/-- `get_classname`: a name starting with `.` is the innermost prefix followed by the name; any other name is taken as
+it is -/
+theorem C11_prefix_resolution (st : PSt) (name : Str) :
+    (∀ p ps, name.head? = some '.' → st.prefixes = p :: ps → getClassname st name = .ok (p ++ name)) ∧
+    (name.head? ≠ some '.' → getClassname st name = .ok name) :=
+  ⟨fun p ps h hp => getClassname_dot st name p ps h hp, getClassname_plain st name⟩
+
+/-- `push_prefix`: a `prefix` attribute starting with `.` (a dotted suffix) composes with the enclosing prefix; one
+not starting with `.` (a dotted name; at the outermost level it must be one) replaces it; none, or an empty one,
+repeats the enclosing prefix (the empty string at the outermost level); an ill-formed one is a `SchemaError`.
+In every case exactly one entry is pushed and nothing else in the state changes, so popping restores the state. -/
+theorem C11_prefix (st : PSt) (attrs : Attrs) :
+    (∀ nm p ps, attr attrs "prefix" = some ('.' :: nm) → st.prefixes = p :: ps →
+        DTSpec.isDottedSuffix ('.' :: nm) = true →
+        pushPrefix st attrs = .ok { st with prefixes := (p ++ '.' :: nm) :: st.prefixes }) ∧
+    (∀ c cs, attr attrs "prefix" = some (c :: cs) → c ≠ '.' →
+        (if st.prefixes.isEmpty then DTSpec.isDottedName (c :: cs) else DTSpec.isDottedSuffix (c :: cs)) = true →
+        pushPrefix st attrs = .ok { st with prefixes := (c :: cs) :: st.prefixes }) ∧
+    ((attr attrs "prefix").getD [] = [] →
+        pushPrefix st attrs = .ok { st with prefixes := (st.prefixes.head?.getD []) :: st.prefixes }) ∧
+    (∀ c cs, attr attrs "prefix" = some (c :: cs) →
+        (if st.prefixes.isEmpty then DTSpec.isDottedName (c :: cs) else DTSpec.isDottedSuffix (c :: cs)) = false →
+        pushPrefix st attrs = .error (.schema "not a valid prefix")) ∧
+    (∀ st1, pushPrefix st attrs = .ok st1 →
+        (∃ p, st1 = { st with prefixes := p :: st.prefixes }) ∧ popPrefix st1 = st) :=
+  ⟨fun nm p ps ha hp hv => pushPrefix_relative st attrs nm p ps ha hp hv,
+   fun c cs ha hc hv => pushPrefix_absolute st attrs c cs ha hc hv,
+   pushPrefix_none st attrs,
+   fun c cs ha hv => pushPrefix_invalid st attrs c cs ha hv,
+   fun _ h => ⟨pushPrefix_ok h, popPrefix_pushPrefix h⟩⟩
+
+example : DTSpec.isDottedSuffix ".sub".toList = true ∧ DTSpec.isDottedName "pkg.mod".toList = true := by decide
+
+/-- prefixes compose outward: inside an element with prefix `p`, an element with prefix `.q` resolves the name `.n`
+to `p.q.n` -/
+theorem C11_prefix_composes (st : PSt) (attrs : Attrs) (q n p : Str) (ps : List Str)
+    (ha : attr attrs "prefix" = some ('.' :: q)) (hp : st.prefixes = p :: ps)
+    (hv : DTSpec.isDottedSuffix ('.' :: q) = true) :
+    ∃ st1, pushPrefix st attrs = .ok st1 ∧ getClassname st1 ('.' :: n) = .ok (p ++ '.' :: q ++ '.' :: n) := by
+  refine ⟨_, pushPrefix_relative st attrs q p ps ha hp hv, ?_⟩
+  rw [getClassname_dot _ ('.' :: n) (p ++ '.' :: q) st.prefixes rfl rfl]
+
+/-- the datatype attributes are resolved through the prefix: with the attribute present, `get_datatype` looks up the
+name made absolute, and the base's value is not consulted -/
+theorem C11_datatype_through_prefix (env : Env) (st : PSt) (attrs : Attrs) (key dflt : String) (base : Option Str)
+    (v : Str) (h : attr attrs key = some v) :
+    getDatatype env st attrs key dflt base = (getClassname st v >>= regGet env) :=
+  getDatatype_attr env st attrs key dflt base v h
+
+/-! ## d. a component is merged once -/
+
+/-- `<import package=… [file=…]>` (well-formed, package name `pkg'` after prefix resolution, resolvable to a package):
+if `package:pkg':file` is already among the schema's components, the state is returned unchanged and nothing is read —
+whatever the hooks are.  Otherwise the component is recorded *before* its document is read: the schema handed to
+`loadComponent` already lists it.  So an import of the same component met while it is being read (a cycle), or again
+later (a diamond), falls under the first case. -/
+theorem C11_import_once (env : Env) (h : Hooks) (st : PSt) (attrs : Attrs) (pkg' : Str)
+    (hsrc : attrStrip attrs "src" = []) (hpkg : attrStrip attrs "package" ≠ [])
+    (hfile : (attrStrip attrs "file").contains '/' = false)
+    (hcls : getClassname st (attrStrip attrs "package") = .ok pkg')
+    (hsplit : (splitOnChar pkg' '.').contains [] = false) :
+    (importSource pkg' (importFile attrs) ∈ st.es.components →
+        (env.comps pkg' (importFile attrs) = .noFile ∨ ∃ tree, env.comps pkg' (importFile attrs) = .doc tree) →
+        startImport env h st attrs = .ok st) ∧
+    (∀ tree, importSource pkg' (importFile attrs) ∉ st.es.components →
+        env.comps pkg' (importFile attrs) = .doc tree →
+        ∃ es1 : ES, importSource pkg' (importFile attrs) ∈ es1.components ∧
+          es1 = { st.es with components := st.es.components ++ [importSource pkg' (importFile attrs)] } ∧
+          startImport env h st attrs = (h.loadComponent es1 tree).map fun es2 => { st with es := es2 }) := by
+  constructor
+  · intro hin hres
+    exact startImport_once env h st attrs pkg' hsrc hpkg hfile hcls hsplit hres hin
+  · intro tree hin hres
+    exact ⟨_, by simp, rfl, startImport_first env h st attrs pkg' tree hsrc hpkg hfile hcls hsplit hres hin⟩
+
+/-- the remembered string is `package:<pkg>:<file>`, with `component.xml` when no file is given -/
+theorem C11_import_source (attrs : Attrs) (pkg : Str) :
+    importSource pkg (importFile attrs) =
+      "package:".toList ++ pkg ++ [':'] ++
+        (if (attrStrip attrs "file").isEmpty then "component.xml".toList else attrStrip attrs "file") := rfl
+
+/-- the component registry only grows: reading any element — with everything inside it, including the components it
+imports and, for a base schema, the schemas it extends — never removes an entry.  (`Hooks.Mono`: the hooks themselves
+never forget a component; the loader's own hooks do, next theorem.  `StartOk`: the pass starts below an element, or at
+the root of a component, or at the root of a base schema continuing the extending schema.) -/
+theorem C11_components_grow (env : Env) (h : Hooks) (d : DocKind) (hm : h.Mono) (n : Node) (p : Option Str)
+    (st st' : PSt) (hs : StartOk d p st) (hv : visitElem env h d p st n = .ok st') :
+    st.es.components ⊆ st'.es.components :=
+  visitElem_comps hm n p st st' hs hv
+
+/-- the hooks `loadSchema` uses at every nesting depth never forget a component -/
+theorem C11_loader_hooks_monotone (env : Env) (fuel : Nat) : (hooks env fuel).Mono := hooks_mono env fuel
+
+/-- cycles and diamonds: once `src` is in the registry — in particular in the schema that `start_import` hands to
+`loadComponent`, which already lists the component being read — it stays there, and every `<import>` element met
+from then on, at any depth of the document being read, is handled in a state `s0` that lists `src`; so if that
+`<import>` resolves to `src` it returns `s0` unchanged, without reading anything. -/
+theorem C11_import_cycle_skipped (env : Env) (h : Hooks) (d : DocKind) (hm : h.Mono) (src : Str) (root : Node)
+    (st st' : PSt) (hs : StartOk d none st) (hv : visitElem env h d none st root = .ok st')
+    (hin : src ∈ st.es.components) :
+    src ∈ st'.es.components ∧
+    ∀ q a c, Occurs none root q (.elem "import".toList a c) →
+      ∃ s0 s1, src ∈ s0.es.components ∧ startImport env h s0 a = .ok s1 ∧
+        (∀ pkg', attrStrip a "src" = [] → attrStrip a "package" ≠ [] →
+            (attrStrip a "file").contains '/' = false → getClassname s0 (attrStrip a "package") = .ok pkg' →
+            (splitOnChar pkg' '.').contains [] = false →
+            (env.comps pkg' (importFile a) = .noFile ∨ ∃ tree, env.comps pkg' (importFile a) = .doc tree) →
+            importSource pkg' (importFile a) = src → s1 = s0) := by
+  refine ⟨visitElem_comps hm root none st st' hs hv hin, ?_⟩
+  intro q a c ho
+  obtain ⟨s0, s1, hC, hstart⟩ := accepted_start_comps hm [src] ho hs (by simpa [comps] using hin) hv
+    "import".toList a c rfl (by decide +kernel)
+  rw [startHandled_import] at hstart
+  have hin0 : src ∈ s0.es.components := hC (by simp)
+  refine ⟨s0, s1, hin0, hstart, ?_⟩
+  intro pkg' h1 h2 h3 h4 h5 h6 h7
+  have := startImport_once env h s0 a pkg' h1 h2 h3 h4 h5 h6 (h7 ▸ hin0)
+  rw [this] at hstart
+  cases hstart; rfl
+
+/-- the same, put together for the loader: when `start_import` reads a new component `tree` (fuel `n + 1`), the
+registry handed over lists it (`C11_import_once`), so in the result it is still listed and every `<import>` inside
+`tree` was handled in a state that lists it -/
+theorem C11_import_cycle_loader (env : Env) (n : Nat) (src : Str) (es1 es2 : ES) (tree : Node)
+    (hin : src ∈ es1.components) (hl : (hooks env (n + 1)).loadComponent es1 tree = .ok es2) :
+    src ∈ es2.components ∧
+    ∀ q a c, Occurs none tree q (.elem "import".toList a c) →
+      ∃ s0 s1, src ∈ s0.es.components ∧ startImport env (hooks env n) s0 a = .ok s1 := by
+  simp only [hooks] at hl
+  cases hv : visitElem env (hooks env n) .component none { es := es1 } tree with
+  | error e => rw [hv] at hl; cases hl
+  | ok st' =>
+    rw [hv] at hl; cases hl
+    obtain ⟨h1, h2⟩ := C11_import_cycle_skipped env (hooks env n) .component (hooks_mono env n) src tree
+      { es := es1 } st' trivial hv hin
+    refine ⟨h1, fun q a c ho => ?_⟩
+    obtain ⟨s0, s1, g1, g2, _⟩ := h2 q a c ho
+    exact ⟨s0, s1, g1, g2⟩
+
 end ZCV.Props.C11
